@@ -307,6 +307,13 @@ class WaitInitiatorCEA(State):
     def run(self) -> None:
         self.set_wait_initiator_cea_state(set_name=True)
 
+        #: The peer may go away without ever answering the CER. Without 
+        #: this check the state machine would wait for a CEA forever and 
+        #: the transport would never be released.
+        if self.is_set_release_signal_from_peer():
+            self.event_initiator_peer_disc()
+            return
+
         if self.has_recv_queue_message():
             self.msg = self.get_message()
 
